@@ -134,7 +134,7 @@ impl ToTokens for DataMatchArm<'_> {
                     if let ::darling::export::syn::Meta::Path(_) = *__nested {
                         ::darling::export::Ok(#ty_ident::#variant_ident)
                     } else {
-                        ::darling::export::Err(::darling::Error::unsupported_format("non-path"))
+                        ::darling::export::Err(::darling::Error::unsupported_format("non-path").with_span(__nested))
                     }
                 },
             ));
@@ -146,7 +146,10 @@ impl ToTokens for DataMatchArm<'_> {
 
         if val.data.is_struct() {
             let declare_errors = ErrorDeclaration::default();
-            let check_errors = ErrorCheck::with_location(name_in_attr);
+            // Errors about the variant's own fields (e.g. a missing one) belong to the variant's
+            // item, not to whatever item encloses the enum.
+            let check_errors =
+                ErrorCheck::with_location(name_in_attr).with_span_of(quote!(__nested));
             let require_fields = vdg.require_fields();
             let decls = vdg.declarations();
             let core_loop = vdg.core_loop();
@@ -172,7 +175,7 @@ impl ToTokens for DataMatchArm<'_> {
                             #inits
                         })
                     } else {
-                        ::darling::export::Err(::darling::Error::unsupported_format("non-list"))
+                        ::darling::export::Err(::darling::Error::unsupported_format("non-list").with_span(__nested))
                     }
                 }
             ));
